@@ -74,9 +74,9 @@ CHECKS = {
         'lane position and c_prop(sims=k), and dataset selection by seed (mode 0) or per lane (mode 1) = that dataset alone.',
    note='Delay selection mode 2 (pseudo-random per gate) and sd > 0 outside the claim. WaveSim part on circuits with <= 3 gates and one transition per input. Structure enumerated.'),
  'C15': dict(engine='E2-symx', category='model_checking', design_ref='DESIGN.md §2.4, §5 C15',
-   technique='forking symbolic execution of the real interpret/mvarray/mv_str on symbolic characters; symbolic bit-vector contents through the real mv_to_bp/bp_to_mv/packbits/unpackbits with numpy bit-packing stubs; SMT query over the real popcount table',
+   technique='forking symbolic execution of the real interpret/mvarray/mv_str on symbolic characters; symbolic bit-vector contents through the real mv_to_bp/bp_to_mv/packbits/unpackbits with numpy bit-packing stubs; the real popcount executed on arrays of symbolic uint8 elements (z3 bit-vectors)',
    text='Every path of the alias matching for symbolic characters (strings up to length 2/3 fully symbolic, one symbolic character at every position of longer strings) is compared with the documented alias table and rendered back; '
-        'mv<->bp round trips, axis convention and padding lanes, and the generic pack/unpack helpers for eight integer dtypes are decided by z3 per output bit for all contents; popcount table = number of one bits for all 256 bytes.',
+        'mv<->bp round trips, axis convention and padding lanes, and the generic pack/unpack helpers for eight integer dtypes are decided by z3 per output bit for all contents; popcount = number of one bits, decided by z3 on the term the real function builds (one arbitrary byte per query, neighbours over four corner values).',
    note='np.packbits / np.unpackbits / ndarray.view are stubs written from the numpy documentation and differentially validated on every run; shapes, pattern counts and dtypes enumerated.'),
  'C20': dict(engine='E2-symx', category='model_checking', design_ref='DESIGN.md §5 C20, §7',
    technique='symbolic-integer execution of the real DefWire/DefNet post-processing (z3 validity of resolved coordinates and via-array positions) + rendered-text enumeration for grammar and transformer',
